@@ -506,6 +506,32 @@ func OpenFile(name string, flag int, perm FileMode) (*File, error) {
 	return f, nil
 }
 
+// Seek sets the offset of the next Read or Write (lseek). Seeking beyond the
+// end is allowed; the gap exists only once something is written behind it.
+func (f *File) Seek(offset int64, whence int) (int64, error) {
+	w := world()
+	w.enter(false)
+	defer w.mu.Unlock()
+	if f.fd < 3 {
+		return 0, pathErr("seek", f.name, syscall.ESPIPE)
+	}
+	if f.closed {
+		return 0, pathErr("seek", f.name, os.ErrClosed)
+	}
+	base := int64(0)
+	switch whence {
+	case 1:
+		base = int64(f.off)
+	case 2:
+		base = int64(len(f.node.Data))
+	}
+	if base+offset < 0 {
+		return 0, pathErr("seek", f.name, syscall.EINVAL)
+	}
+	f.off = int(base + offset)
+	return base + offset, nil
+}
+
 func (f *File) Stat() (FileInfo, error) {
 	w := world()
 	w.enter(false)
@@ -581,12 +607,13 @@ func (f *File) Write(p []byte) (int, error) {
 			w.Stdout = append(w.Stdout, b...)
 			return
 		}
-		// append-only writers (gxz never seeks)
-		if f.off < len(f.node.Data) {
-			f.node.Data = append(f.node.Data[:f.off], b...)
-		} else {
-			f.node.Data = append(f.node.Data, b...)
+		// pwrite semantics at the file offset: a gap left by Seek reads as
+		// zeros, existing bytes are overwritten in place
+		if f.off > len(f.node.Data) {
+			f.node.Data = append(f.node.Data, make([]byte, f.off-len(f.node.Data))...)
 		}
+		n := copy(f.node.Data[f.off:], b)
+		f.node.Data = append(f.node.Data, b[n:]...)
 		f.off += len(b)
 	}
 	if fail != nil {
